@@ -954,3 +954,33 @@ func (l *Loaded) implementers(recv types.Type, method string) []*ssa.Function {
 	}
 	return out
 }
+
+// valueName: the source-level variable a value is (a load of): parameter,
+// captured variable or named local; "" otherwise.
+func valueName(v ssa.Value) string {
+	v = stripTrivial(v)
+	for i := 0; i < 4; i++ {
+		switch x := v.(type) {
+		case *ssa.Parameter:
+			return x.Name()
+		case *ssa.FreeVar:
+			return x.Name()
+		case *ssa.Alloc:
+			return x.Comment
+		case *ssa.UnOp:
+			if x.Op == token.MUL {
+				if fa, ok := x.X.(*ssa.FieldAddr); ok {
+					return fieldName(fa.X.Type(), fa.Field)
+				}
+				v = x.X
+				continue
+			}
+			if x.Op == token.NOT {
+				v = x.X
+				continue
+			}
+		}
+		return ""
+	}
+	return ""
+}
